@@ -194,8 +194,8 @@ add("C07", "untrusted input never panics / hangs / over-allocates",
     "trusted: engine's encoding of Go's runtime checks, z3; stubbed packages are outside")
 
 DIAL_BOUNDS = ["DialContext executed on configurations and replies one (thorough: two) dimension(s) away from a plain successful ws:// dial: URL shapes (port, IPv6 literal, query, empty path), bad schemes (http, any two lower-case letters) and userinfo, wss with ServerName / InsecureSkipVerify / NetDialTLSContext and TLS handshake / verification failure, NetDial / NetDialContext / default dialer, http / https / socks5 proxy with none / user / user:password credentials and ws / wss backend, Subprotocols, EnableCompression, HandshakeTimeout, context deadline (symbolic), benign caller headers, each protocol-owned caller header in canonical / RFC / lower-case spelling, reply status (any 3-digit code, optional reason), Upgrade / Connection line variants, wrong (28 arbitrary characters) or missing Accept, extension reply variants, subprotocol, refused handshake with a body of 0 / 10 / 1024 / 1500 bytes, dial error, request write error, transport fault at each of the first 3 write-side operations, two server frames glued to the 101 response"]
-DIAL_OUT = ["url.Parse, Request.Write serialisation, http.ReadResponse parsing, cookies: modelled at object level on template inputs", "certificate validation itself (crypto/tls), environment proxies, DNS", "SOCKS5: replies outside the RFC 1928 layout bounds of vfH_socks_reply (bound-address FQDN lengths other than 0/3/255), GSSAPI and other methods, cancellation of the context during the negotiation (x/net's watcher goroutine is scheduled non-preemptively and never fires)", "SHA-1 as a function (uninterpreted, collision-free)"]
-DIAL_STUBS = STUB_COMMON + ["net/url.Parse -> answers from the harness's template knowledge", "(*http.Request).Write / http.ReadResponse -> object-level models that produce / consume the head bytes on the scripted connection", "crypto/tls Client/HandshakeContext/VerifyHostname/Close -> call-trace model (Close closes the wrapped connection, as documented)", "context, httptrace -> harness types", "crypto/sha1 -> uninterpreted function", "golang.org/x/net/proxy and golang.org/x/net/internal/socks: NOT stubbed - executed from their SSA together with proxyFromURL"]
+DIAL_OUT = ["Request.Write serialisation, http.ReadResponse parsing, cookies: modelled at object level on template inputs (net/url.Parse itself is executed from its SSA on the template URL strings)", "certificate validation itself (crypto/tls), environment proxies, DNS", "SOCKS5: replies outside the RFC 1928 layout bounds of vfH_socks_reply (bound-address FQDN lengths other than 0/3/255), GSSAPI and other methods, cancellation of the context during the negotiation (x/net's watcher goroutine is scheduled non-preemptively and never fires)", "SHA-1 as a function (uninterpreted, collision-free)"]
+DIAL_STUBS = STUB_COMMON + ["net/url: NOT stubbed in dial_logic - url.Parse and the URL methods are executed from their SSA (dial_reply / negotiate keep the template model)", "(*http.Request).Write / http.ReadResponse -> object-level models that produce / consume the head bytes on the scripted connection", "crypto/tls Client/HandshakeContext/VerifyHostname/Close -> call-trace model (Close closes the wrapped connection, as documented)", "context, httptrace -> harness types", "crypto/sha1 -> uninterpreted function", "golang.org/x/net/proxy and golang.org/x/net/internal/socks: NOT stubbed - executed from their SSA together with proxyFromURL"]
 
 add("C14", "client handshake",
     [H("vfH_dial_logic", ["dial-success", "dial-refused", "dial-malformed", "dial-forbidden-header"], 600), H("vfH_tokenlist_diff", ["tokenlist-end"], 300), TWIN("vfH_dial_logic")],
